@@ -222,12 +222,13 @@ theorem rebuilt_equals_original {U : List Entry} (hU : (hashes U).Nodup) {l : Lo
     (hroots : ∀ h, h ∈ roots ↔ h ∈ hashes l.heads)
     (hlen : cfg.length < 0) (hex : ∀ h, cfg.excluded h = false) (src : SourceInStore cfg l.entries roots)
     (h : accepted cfg roots evs = some s) (hq : quiescent s) (hc : s.cancelled = false)
-    (clockId : Bytes) (k k' : SortKind)
-    (source : List Entry) (hsrc : ∀ e ∈ source, e ∈ l.entries) (hne : source ≠ []) :
+    (clockId : Bytes) (k k' : SortKind) :
     SameLog U l (loadManifest clockId k k' l.id roots s.results (-1)) ∧
     SameLog U l (loadEntryHash clockId k l.id s.results (-1)) ∧
     SameLog U l (loadJSON clockId k l.id s.results (-1)) ∧
-    (∃ L, loadEntries clockId k source s.results (-1) = some L ∧ SameLog U l L) := by
+    -- `NewFromEntry` is handed entries of the log, at least one
+    (∀ source : List Entry, (∀ e ∈ source, e ∈ l.entries) → source ≠ [] →
+      ∃ L, loadEntries clockId k source s.results (-1) = some L ∧ SameLog U l L) := by
   obtain ⟨hmem, hnd⟩ := fetch_eq_source cfg l.entries roots evs s hlen hex src h hq hc
   refine ⟨?_, ?_, ?_, ?_⟩
   · unfold loadManifest
@@ -254,7 +255,8 @@ theorem rebuilt_equals_original {U : List Entry} (hU : (hashes U).Nodup) {l : Lo
     exact sameLog_of_newLog hU I _ _ _ _
       (fun e he => (hmem e).mp ((goSort_perm _ _).mem_iff.mp he))
       (fun e he => (goSort_perm _ _).mem_iff.mpr ((hmem e).mpr he)) (Or.inl rfl)
-  · obtain ⟨lastE, hlast, heq⟩ := loadEntries_unbounded_eq clockId k source s.results hne
+  · intro source hsrc hne
+    obtain ⟨lastE, hlast, heq⟩ := loadEntries_unbounded_eq clockId k source s.results hne
     have hin : ∀ e ∈ goSort clockAsc (omFromList (source ++ s.results)), e ∈ l.entries := by
       intro e he
       have := mem_omFromList ((goSort_perm _ _).mem_iff.mp he)
